@@ -33,7 +33,8 @@ const PARS: [Parity; 3] = [Parity::ParityNone, Parity::ParityOdd, Parity::Parity
 const STOPS: [StopBits; 2] = [StopBits::Stop1, StopBits::Stop2];
 const FLOWS: [FlowControl; 3] = [FlowControl::FlowNone, FlowControl::FlowSoftware, FlowControl::FlowHardware];
 const PRIOR_TIMEOUTS_MS: [u64; 3] = [0, 1, 3_600_000];
-const CALLER_TIMEOUTS_MS: [u64; 4] = [0, 1, 5_000, 3_600_000];
+// in microseconds: whole milliseconds, sub-millisecond values and one with a fractional millisecond
+const CALLER_TIMEOUTS_US: [u64; 7] = [0, 500, 781, 1_000, 1_500, 5_000_000, 3_600_000_000];
 const KINDS: [serial_core::ErrorKind; 5] = [
     serial_core::ErrorKind::NoDevice,
     serial_core::ErrorKind::InvalidInput,
@@ -62,11 +63,11 @@ fn line_json(l: &Line) -> Value {
 
 fn case_json(c: &Case, idx: u64) -> Value {
     json!({"kind": "port", "index": idx, "prior": line_json(&c.line), "prior_timeout_ms": c.prior_timeout_ms,
-           "constructor": match c.ctor { 0 => "SerialSignBus::try_new".to_string(), 1 => "Odk::try_new".to_string(), k => format!("configure_port(timeout={}ms)", CALLER_TIMEOUTS_MS[k - 2]) },
+           "constructor": match c.ctor { 0 => "SerialSignBus::try_new".to_string(), 1 => "Odk::try_new".to_string(), k => format!("configure_port(timeout={}us)", CALLER_TIMEOUTS_US[k - 2]) },
            "fault": c.fault.map(|(call, kind)| format!("{:?} fails with {:?} ({})", CALLS[call], KINDS[kind], if c.occurrence == 0 { "every time".to_string() } else { format!("only call #{}", c.occurrence) }))})
 }
 
-const N_CTOR: u64 = 6;
+const N_CTOR: u64 = 9;
 const N_FAULT: u64 = 1 + 4 * N_KINDS; // none + 4 calls x 5 kinds
 const N_OCC: u64 = 4; // every occurrence, or only the 1st / 2nd / 3rd
 
@@ -110,7 +111,7 @@ pub fn check_case(c: &Case) -> (String, Vec<(&'static str, String, String)>) {
             1 => Odk::try_new(port, NullBus).map(|_| ()),
             k => {
                 let mut port = port;
-                flipdot_serial::configure_port(&mut port, Duration::from_millis(CALLER_TIMEOUTS_MS[k - 2]))
+                flipdot_serial::configure_port(&mut port, Duration::from_micros(CALLER_TIMEOUTS_US[k - 2]))
             }
         }
     });
@@ -118,9 +119,9 @@ pub fn check_case(c: &Case) -> (String, Vec<(&'static str, String, String)>) {
     // own default values are not part of the statement, only that some non-zero timeout is set
     let want_timeout = match c.ctor {
         0 | 1 => None,
-        k => Some(Duration::from_millis(CALLER_TIMEOUTS_MS[k - 2])),
+        k => Some(Duration::from_micros(CALLER_TIMEOUTS_US[k - 2])),
     };
-    let ctor_name = ["try_new", "odk", "configure_port", "configure_port", "configure_port", "configure_port"][c.ctor];
+    let ctor_name = ["try_new", "odk", "configure_port", "configure_port", "configure_port", "configure_port", "configure_port", "configure_port", "configure_port"][c.ctor];
     let mut out = vec![];
     let events = log.borrow().clone();
     let outcome;
